@@ -228,6 +228,57 @@ def check_namedtuple(case: t.Any, ctx: Ctx) -> None:
         ctx.fail('unexpected-exception', f"namedtuple:{type(r).__name__}", f"{ident}: {type(r).__name__}: {str(r)[:200]}")
 
 
+# ---- date / time objects given as data (what a YAML timestamp is when it arrives) --------------------------------------------------
+#
+# A datetime narrows to a date or a time by taking that part of it - *all* of that part: the time of an aware datetime keeps
+# its UTC offset ("2001-12-14t21:59:43-05:00" read as a time is 21:59:43-05:00, as the text '21:59:43-05:00' is).
+
+def temporal_cases(shard: int, nshards: int) -> t.Iterator[t.Any]:
+    i = 0
+    for target in ('date', 'time', 'datetime'):
+        for vi in range(6):
+            for where in ('List', 'Dict', 'yaml'):
+                if i % nshards == shard:
+                    yield [target, vi, where]
+                i += 1
+
+
+def check_temporal(case: t.Any, ctx: Ctx) -> None:
+    import pane
+    import datetime as D
+    import io as _io
+    (target, vi, where) = case
+    tz = D.timezone(D.timedelta(hours=-5))
+    vals = [D.datetime(2001, 12, 14, 21, 59, 43, tzinfo=tz), D.datetime(2001, 12, 14, 21, 59, 43), D.datetime(2020, 2, 29, 0, 0, 0, 5, tzinfo=D.timezone.utc),
+            D.date(2020, 1, 2), D.time(1, 2, 3, tzinfo=tz), D.time(23, 59)]
+    v = vals[vi]
+    T = {'date': D.date, 'time': D.time, 'datetime': D.datetime}[target]
+    ctx.label(f"{type(v).__name__}->{target}", where)
+    ctx.nontrivial(type(v) is not T)
+    if where == 'yaml':
+        if type(v) is D.time:
+            return         # (YAML has no time-of-day scalar)
+        doc = v.isoformat()
+        (k, r) = outcome(lambda: pane.from_yaml(_io.StringIO(doc), T))
+    elif where == 'List':
+        (k, r) = outcome(lambda: pane.from_data([v], t.List[T]))
+        r = r[0] if k == 'ok' else r
+    else:
+        (k, r) = outcome(lambda: pane.from_data({'k': v}, t.Dict[str, T]))
+        r = r['k'] if k == 'ok' else r
+    ctx.evaluated()
+    if type(v) is D.datetime:
+        want = {'date': v.date(), 'time': v.timetz(), 'datetime': v}[target]
+    elif type(v) is T:
+        want = v
+    else:
+        return       # (date -> datetime, time -> date, ...: not this check's subject)
+    if k != 'ok':
+        ctx.fail('verdict', f"temporal:{type(v).__name__}->{target}:refused", f"{v!r} given as data ({where}) to {target}: {type(r).__name__}: {str(r)[:150]}; expected {want!r}")
+    elif type(r) is not T or r != want or getattr(r, 'tzinfo', None) != getattr(want, 'tzinfo', None):
+        ctx.fail('exactly-typed', f"temporal:{type(v).__name__}->{target}", f"{v!r} given as data ({where}) to {target} gave {r!r}; that part of it is {want!r}")
+
+
 def suites(tier: str) -> t.List[Suite]:
     big = tier == 'thorough'
     leaves = 8 if big else 4
@@ -238,6 +289,8 @@ def suites(tier: str) -> t.List[Suite]:
               budget_s=120 if big else 15, render=gen.render_case),
         Suite('namedtuple', check_namedtuple, cases=nt_cases, exhaustive=True, budget_s=60,
               render=lambda c: {'class': c[0], 'position': c[1], 'value': short(_NT_VALUES[c[2]], 60)}),
+        Suite('temporal-objects', check_temporal, cases=temporal_cases, exhaustive=True, budget_s=30,
+              render=lambda c: {'target': c[0], 'value index': c[1], 'where': c[2]}),
         Suite('generic-inherit', check_generic, strategy=generic_cases, examples=300 if big else 30, budget_s=60 if big else 10,
               render=lambda c: {'shape': c[0], 'arguments': c[1]}),
     ]
